@@ -40,6 +40,6 @@ Full == { Bool, I8, U8, I16, I32, U32, I64, F32, F64, C64, C128, Str, Ptr, Sl, I
           N1, N2, N3, N4, N5, N6, N7, N8, N9, NI32, AC64, NS, AS, NZ, NA }
 
 \* one representative per layout behaviour (size, alignment, zero-size, nesting shape)
-Core == { I8, I32, I64, C64, Str, E0, Z64, A3I8, N2, N3, NS }
-CoreBig == Core \cup { I16, Sl, N4 }
+Core == { I8, I16, I32, I64, C64, Str, E0, Z64, A3I8, N2, N3, NS }
+CoreBig == Core \cup { Sl, N4 }
 =============================================================================
